@@ -244,10 +244,13 @@ theorem getNextImf_smul (c : Rat) (hc : c ≠ 0) (E E' : Nat → Sig → Sift.En
     Sift.run E' o (Sig.smul c x) = (Sift.run E o x).smul c :=
   ⟨Sift.getNextImfIx_smul c hc E E' hE D D' hD o x, Sift.loop_smul c hc E E' hE o _ _ x⟩
 
-/-- …in particular with the envelopes of the Extrema model (any pad width, with or without parabolic refinement),
-    under the oracle contract `I.Homogeneous`. -/
-theorem getNextImf_smul_envelope (I : Extrema.Interp) (hI : I.Homogeneous) (c : Rat) (hc : c ≠ 0) (w : Nat) (parab : Bool)
-    (D : Sig → Sig → Rat) (hD : Sift.EnergySmul c D D) (o : Sift.ImfOpts) (x : Sig) :
+/-- …in particular with the envelopes of the Extrema model (any pad width ≥ 1, with or without parabolic refinement),
+    under the oracle contract `I.Homogeneous`.  `1 ≤ w` is the range in which `Sift.extEnv` represents the code:
+    there `interp_envelope` never raises (`C05.interpEnvelope_never_raises`, `C01.pipeline_envelopes_faithful`); at
+    `w = 0` the code rejects every oscillatory input (`C05.interpEnvelope_pad0_raises`) and `extEnv`, which maps a
+    raising envelope to "no envelope", would describe a state the code never reaches. -/
+theorem getNextImf_smul_envelope (I : Extrema.Interp) (hI : I.Homogeneous) (c : Rat) (hc : c ≠ 0) (w : Nat) (_hw : 1 ≤ w)
+    (parab : Bool) (D : Sig → Sig → Rat) (hD : Sift.EnergySmul c D D) (o : Sift.ImfOpts) (x : Sig) :
     Sift.getNextImf (Sift.extEnv I w parab) D o (Sig.smul c x) = (Sift.getNextImf (Sift.extEnv I w parab) D o x).smul c :=
   Sift.getNextImfIx_smul c hc _ _ (Sift.extEnv_smul I hI c hc w parab) D D hD o x
 
@@ -300,9 +303,10 @@ theorem sift_smul_thr_silent (c : Rat) (hc : c ≠ 0) (X X' : Sig → Option (Si
   have e2 : ¬ (Rat.abs' c * Sig.absSum u < thr) := not_lt.mpr h2
   simp [e1, e2]
 
-/-- …with `get_next_imf` over the Extrema-model envelopes as the extractor. -/
-theorem sift_smul_envelope (I : Extrema.Interp) (hI : I.Homogeneous) (c : Rat) (hc : c ≠ 0) (w : Nat) (parab : Bool)
-    (D : Sig → Sig → Rat) (hD : Sift.EnergySmul c D D) (o : Sift.ImfOpts) (thr : Rat) (cap : Option Nat) (x : Sig) (fuel : Nat) :
+/-- …with `get_next_imf` over the Extrema-model envelopes (pad width ≥ 1, see `getNextImf_smul_envelope`) as the
+    extractor. -/
+theorem sift_smul_envelope (I : Extrema.Interp) (hI : I.Homogeneous) (c : Rat) (hc : c ≠ 0) (w : Nat) (_hw : 1 ≤ w)
+    (parab : Bool) (D : Sig → Sig → Rat) (hD : Sift.EnergySmul c D D) (o : Sift.ImfOpts) (thr : Rat) (cap : Option Nat) (x : Sig) (fuel : Nat) :
     Sift.sift (Sift.extractor (Sift.extEnv I w parab) D o) (Rat.abs' c * thr) cap (Sig.smul c x) fuel
       = ((Sift.sift (Sift.extractor (Sift.extEnv I w parab) D o) thr cap x fuel).1.map (Sig.smul c),
          (Sift.sift (Sift.extractor (Sift.extEnv I w parab) D o) thr cap x fuel).2) :=
@@ -485,8 +489,10 @@ example : Mask.ShiftClosed (fun _ _ i => if i % 2 = 0 then [1, -1, 1] else [-1, 
   abstract — the model of get_padded_extrema → interp_envelope → get_next_imf → get_next_imf_mask → mask_sift. -/
 
 /-- `mask_sift (c • x) = c • mask_sift x` for the composed pipeline, any `c ≠ 0` (ratio amplitude modes, threshold
-    scaled by `|c|`; for `c < 0` an even number of phases and a mask table closed under the half turn). -/
-theorem maskSift_pipeline_smul (I : Extrema.Interp) (hI : I.Homogeneous) (c : Rat) (hc : c ≠ 0) (w : Nat) (parab : Bool)
+    scaled by `|c|`; for `c < 0` an even number of phases and a mask table closed under the half turn; pad width ≥ 1,
+    the range in which `Sift.extEnv` represents the code, see `getNextImf_smul_envelope`). -/
+theorem maskSift_pipeline_smul (I : Extrema.Interp) (hI : I.Homogeneous) (c : Rat) (hc : c ≠ 0) (w : Nat) (_hw : 1 ≤ w)
+    (parab : Bool)
     (D : Sig → Sig → Rat) (hD : Sift.EnergySmul c D D) (o : Sift.ImfOpts)
     (σ : Nat → Pool.Schedule) (nproc : Nat) (unit : Rat → Nat → Nat → Sig) (std : Sig → Rat)
     (hstd : Mask.StdAbsHom c std) (cfg : Mask.Cfg) (hmode : cfg.mode ≠ .abs) (hσ : ∀ k, (σ k).Valid cfg.p nproc)
